@@ -65,6 +65,26 @@ Definition check10 (c : cfg) (m : obs) (o : srv_op) (r : srv_out) : option nat :
   | _, _ => None
   end.
 
+(* the clause not_subscribed alone (C10_not_subscribed_never_fires: proved for every trace of the model) *)
+Definition check10_ns (c : cfg) (m : obs) (o : srv_op) (r : srv_out) : option nat :=
+  match o, r with
+  | OpOut cid n, OBytes (opc :: lo :: hi :: v) =>
+      if (opc =? 27) || (opc =? 29) then
+        let kd := if opc =? 27 then KNotif else KInd in
+        match by_value_handle (ob_tab m) (lo + 256 * hi) with
+        | Some g =>
+            match nth g (o_cccd (oc_at m cid)) None with
+            | Some bits => if N.land bits (kbit kd) =? 0 then Some t10_not_subscribed else None
+            | None => None
+            end
+        | None => None
+        end
+      else None
+  | _, _ => None
+  end.
+Definition monitor10_ns (c : cfg) (tr : list (srv_op * srv_out)) : option (nat * nat) :=
+  monitor_from_of check10_ns c (obs_init c) O tr.
+
 Definition mstep10 := mstep_of check10.
 Definition monitor10 (c : cfg) (tr : list (srv_op * srv_out)) : option (nat * nat) :=
   monitor_from_of check10 c (obs_init c) O tr.
